@@ -299,7 +299,8 @@ func (s *sim) oneMessage(inBurst bool) {
 	case k < 88:
 		s.notify("initialized", map[string]any{})
 	case k < 91:
-		s.request("workspace/unknownMethod"+strconv.Itoa(s.src.Intn(3, "c18.unk")), map[string]any{"x": 1})
+		m := []string{"workspace/unknownMethod0", "workspace/unknownMethod1", "$/unsupportedRequest", "$/setTrace", "textDocument/unknown", "shutdownn"}[s.src.Intn(6, "c18.unk")]
+		s.request(m, map[string]any{"x": 1})
 	case k < 93:
 		s.notify("$/unknownNotification", map[string]any{"x": 1})
 	case k < 97:
